@@ -290,6 +290,52 @@ def _check(ctx: Ctx, only=None) -> None:
                   construct="scale does not multiply the waits for every factor greater than 1",
                   message=f"`{short(t_)}`: some integer factors above 1 fall through to the re-barring path for factors below 1", file=fi.file, node=big)
         lp = next(x for x in big.body if isinstance(x, ast.For))
+
+        # the loop is reached for *every* integer factor k >= 2: each condition on the way (the governing `if`s and the guard
+        # clauses passed) is evaluated for such a factor -- `if not factor == 1: return` in front of it makes scale(2) a no-op
+        def fac_truth(t):
+            if isinstance(t, ast.UnaryOp) and isinstance(t.op, ast.Not):
+                v = fac_truth(t.operand)
+                return None if v is None else not v
+            if isinstance(t, ast.BoolOp):
+                vs = [fac_truth(v) for v in t.values]
+                if isinstance(t.op, ast.And):
+                    return False if any(v is False for v in vs) else (True if all(v is True for v in vs) else None)
+                return True if any(v is True for v in vs) else (False if all(v is False for v in vs) else None)
+            if isinstance(t, ast.Compare) and len(t.ops) == 1:
+                l_, r_, op = t.left, t.comparators[0], type(t.ops[0])
+                if isinstance(l_, ast.Constant) and src(r_) == fac:
+                    l_, r_, op = r_, l_, {ast.Lt: ast.Gt, ast.Gt: ast.Lt, ast.LtE: ast.GtE, ast.GtE: ast.LtE}.get(op, op)
+                if src(l_) == fac and isinstance(r_, ast.Constant) and isinstance(r_.value, (int, float)) and not isinstance(r_.value, bool):
+                    c = r_.value
+                    if c < 2:                                   # k >= 2 > c
+                        return {ast.Gt: True, ast.GtE: True, ast.NotEq: True, ast.Eq: False, ast.Lt: False, ast.LtE: False}.get(op)
+                    if c == 2:
+                        return {ast.GtE: True, ast.Lt: False}.get(op)
+                    return None
+            if isinstance(t, ast.Call) and isinstance(t.func, ast.Attribute) and t.func.attr == "is_integer" and not t.args:
+                inner = src(t.func.value).replace(" ", "")
+                if inner in (f"({fac}*1.0)", f"float({fac})", f"({fac}/1)", f"(1.0*{fac})"):
+                    return True
+                if inner in (f"(1/{fac})", f"(1.0/{fac})"):
+                    return False
+            if isinstance(t, ast.Call) and src(t.func) == "isinstance" and len(t.args) == 2 and src(t.args[0]) == fac and src(t.args[1]) == "int":
+                return True
+            return None
+        from ..astutil import guarded_conditions
+        blocked, unsure = [], []
+        for t, holds in guarded_conditions(lp, None):
+            v = fac_truth(t)
+            if v is None:
+                unsure.append(short(t, 50))
+            elif v != holds:
+                blocked.append(f"`{short(t, 50)}` must {'hold' if holds else 'not hold'}")
+        if unsure and not blocked:
+            ctx.undetermined("SCALE", f"{q}: the stretching loop is reached for every integer factor above 1", f"condition(s) {unsure} not decided for a factor k >= 2: not judged")
+        else:
+            ctx.check(not blocked, "SCALE", f"{q}: the stretching loop is reached for every integer factor above 1", function=q,
+                      construct="scale's stretching loop is not reached for some integer factor above 1",
+                      message=f"{blocked[:2]} on the way to the loop, which is false for an integer factor k >= 2: the call returns without stretching", file=fi.file, node=lp)
         for T in p.enum_order("MessageType"):
             tc = TypeCase(p, fi, {lp.target.id}, T)
             exits = tc.run_body(lp.body)
